@@ -212,9 +212,11 @@ SKELETON = {
     # siblings whose names extend another module's name as a plain string (x / xy, c / cx)
     "top/xy.py": "",
     "top/b/cx.py": "",
+    # a package directory that holds nothing but another package
+    "top/n/o/p.py": "",
 }
 SK_MODULES = ["top", "top.__init__", "top.a", "top.b", "top.b.__init__", "top.b.c", "top.b.e", "top.b.e.__init__",
-              "top.b.e.f", "top.b.g", "top.b.g.h", "top.x", "top.b.b", "top.b.e.e", "top.top", "top.xy", "top.b.cx"]
+              "top.b.e.f", "top.b.g", "top.b.g.h", "top.x", "top.b.b", "top.b.e.e", "top.top", "top.xy", "top.b.cx", "top.n", "top.n.o", "top.n.o.p"]
 
 
 def package_of(file_mod):
@@ -334,7 +336,7 @@ def pair_cases():
     """Two import statements in one file: the same name imported from two different modules, two
     star imports, two plain imports (each statement must yield its own edge)."""
     files = [(rel, "top." + rel[4:-3].replace("/", ".")) for rel in SKELETON]
-    targets = ["top.a", "top.b.c", "top.b.e.f", "top.b.g.h", "top.x", "top.b.e"]
+    targets = ["top.a", "top.b.c", "top.b.e.f", "top.b.g.h", "top.x", "top.b.e", "top.b.cx"]
     out = []
     for rel, imod in files:
         ts = [t for t in targets if t != imod and not imod.startswith(t + ".")]
@@ -343,6 +345,10 @@ def pair_cases():
             out.append((rel, imod, "same-name-nested", f"from {t1} import helper\ndef f():\n    from {t2} import helper", {t1, t2}))
             out.append((rel, imod, "star", f"from {t1} import *\nfrom {t2} import *", {t1, t2}))
             out.append((rel, imod, "same-alias", f"import {t1} as m\nimport {t2} as m", {t1, t2}))
+            p1, _, l1 = t1.rpartition(".")
+            p2, _, l2 = t2.rpartition(".")
+            if p1 == p2:
+                out.append((rel, imod, "same-package-two-statements", f"from {p1} import {l1}\ndef f():\n    from {p2} import {l2}", {t1, t2}))
     return out
 
 
